@@ -13,6 +13,7 @@ import (
 	"encoding/json"
 	"errors"
 	"fmt"
+	"reflect"
 
 	"github.com/dfklegend/cell2/actorex/service"
 	api "github.com/dfklegend/cell2/apimapper"
@@ -30,6 +31,46 @@ type MsgB struct {
 	Y *MsgA `json:"y,omitempty"`
 }
 
+// MsgBoom: a message type whose own decoding code panics (encoding/json calls UnmarshalJSON once the
+// payload is syntactically valid JSON)
+type MsgBoom struct{ A int }
+
+func (m *MsgBoom) UnmarshalJSON([]byte) error { panic("MsgBoom.UnmarshalJSON panics") }
+
+// panicSer: a user serializer (serialize.Serializer is an interface) whose Unmarshal panics
+type panicSer struct{}
+
+func (panicSer) Marshal(interface{}) ([]byte, error) { return nil, errors.New("unused") }
+func (panicSer) Unmarshal([]byte, interface{}) error { panic("panicSer.Unmarshal panics") }
+func (panicSer) GetName() string                     { return "panicser" }
+
+// formaters of the harness's own (SetFormater takes any IAPIFormatter).
+// permVal: the default predicate with ONE check relaxed: the message may also be a struct BY VALUE
+type permVal struct{}
+
+func (permVal) IsValidMethod(m reflect.Method) bool {
+	mt := m.Type
+	if m.PkgPath != "" {
+		return false
+	}
+	n := mt.NumIn()
+	if n != 3 && n != 4 {
+		return false
+	}
+	if t1 := mt.In(1); t1.Kind() != reflect.Ptr || !t1.Implements(api.TypeOfContext) {
+		return false
+	}
+	if k := mt.In(2).Kind(); k != reflect.Ptr && k != reflect.Struct {
+		return false
+	}
+	return n == 3 || mt.In(3).Kind() == reflect.Func
+}
+
+// permAll: every exported method
+type permAll struct{}
+
+func (permAll) IsValidMethod(m reflect.Method) bool { return m.PkgPath == "" }
+
 // contexts
 type ZCtx struct{ tag int }
 
@@ -44,6 +85,10 @@ func (ValCtx) Handle()  {}
 type NoCtx struct{}
 
 type MyCB func(error, interface{})
+
+// PM: a NAMED pointer type. Kind()==Ptr, so the shape predicate admits it as a message
+// parameter; *MsgA is assignable to PM and PM to *MsgA (identical underlying types, one side unnamed)
+type PM *MsgA
 
 type CB = apientry.HandlerCBFunc
 type DC = api.DummyContext
@@ -205,6 +250,10 @@ func (z *ZooA) CbNamed(ctx *DC, m *MsgA, cb MyCB)         { act("ZooA.CbNamed", 
 func (z *ZooA) CbRetBool(ctx *DC, m *MsgA, cb func(error, interface{}) bool) {
 	act("ZooA.CbRetBool", z.tag, ctx, m, nil)
 }
+func (z *ZooA) NamedPtr(ctx *DC, m PM, cb CB)           { act("ZooA.NamedPtr", z.tag, ctx, m, cb) }
+func (z *ZooA) NamedPtrNote(ctx *DC, m PM)              { act("ZooA.NamedPtrNote", z.tag, ctx, m, nil) }
+func (z *ZooA) Boom(ctx *DC, m *MsgBoom, cb CB)         { act("ZooA.Boom", z.tag, ctx, m, cb) }
+func (z *ZooA) BoomNote(ctx *DC, m *MsgBoom)            { act("ZooA.BoomNote", z.tag, ctx, m, nil) }
 func (z *ZooA) Zero()                                   { act("ZooA.Zero", z.tag, nil, nil, nil) }
 func (z *ZooA) OnlyCtx(ctx *DC)                         { act("ZooA.OnlyCtx", z.tag, ctx, nil, nil) }
 func (z *ZooA) Five(ctx *DC, m *MsgA, cb CB, extra int) { act("ZooA.Five", z.tag, ctx, m, cb) }
